@@ -1667,6 +1667,24 @@ _KEEP_ORDER = ("call:list", "call:tuple", "call:iter", "astype", "call:enumerate
                "call:str.strip", "call:.strip")
 
 
+def _all_items(x):
+    """x without the conversions, reshapes and axis insertions that keep every item in its order (x.ravel(), x.reshape(..), x[:, None],
+    x[None, :], x[...], np.expand_dims(x, k))"""
+    while True:
+        x = strip(x)
+        i = app(x, "idx")
+        if i and len(i) == 2:
+            parts = app(i[1], "tuple") or [i[1]]
+            if all(sym_of(q) in ("None", "Ellipsis", "np.newaxis") or (app(q, "slice") and all(sym_of(z) == "None" for z in app(q, "slice"))) for q in parts):
+                x = i[0]
+                continue
+        c = _is_call(x, ("expand_dims", "atleast_2d", "atleast_1d"), ["a", "axis"])
+        if c and c.get("a") is not None:
+            x = c["a"]
+            continue
+        return x
+
+
 def _iteration_source(it):
     """what a loop / generator iterates over, looking through wrappers that hand the items on one by one in their order (list, tuple, iter,
     enumerate, a conversion, map(f, X), X[:]):  ("source", X) - the items of X in the order X has them;  ("rearranged", X) - a sorted /
@@ -1854,19 +1872,22 @@ def r4_expanddof(ctx):
     odd = None
     for p, k, v in ids:
         X, R = _cross_rows(v)
-        ok = sym_of(strip(X)) == dofp
+        ok = sym_of(_all_items(X)) == dofp
         g = flag_of[id(p)]
         if _range_of(R) is None:
             odd = odd or (p, R)         # the component list is not a constant range: nothing to compare
+            continue
+        if not ok and depends_on_sym(X, dofp) and _iteration_source(X)[0] != "rearranged":
+            odd = odd or (p, X)         # ids taken from the request in a form this rule does not know (a selection, a computed array)
             continue
         seen.add(g)
         if not (ok and _range_of(R) == ((1, 7) if g else (0, 7))):
             good = False
             det = det or {"regime": p.describe(), "grids_only": g, "returned": _show(v)}
     if odd is not None and good:
-        ctx.error("expanddof: the component list of the id expansion is not recognised (rule knows range / np.arange with constant bounds, for "
-                  "each value of the flag)", odd[0].ret_node,
-                  {"regime": odd[0].describe(), "grids_only": flag_of[id(odd[0])], "components": _show(odd[1])})
+        ctx.error("expanddof: the ids / the component list of the id expansion are not recognised (rule knows the request itself, flattened or "
+                  "reshaped, and range / np.arange with constant bounds for each value of the flag)", odd[0].ret_node,
+                  {"regime": odd[0].describe(), "grids_only": flag_of[id(odd[0])], "ids or components": _show(odd[1])})
     else:
         ctx.check(good and seen == {True, False}, "expanddof: 1-D input expands every id, in request order, to the rows [id, c] for c = 1..6 (grids_only) or 0..6", fn, det)
     # an empty request: no rows
@@ -1874,7 +1895,7 @@ def r4_expanddof(ctx):
     ctx.check(not filled, "expanddof: no regime returns a constant-filled array (an empty request gives an array without rows)",
               (filled[0][0].ret_node if filled else None) or fn, None if not filled else {"regime": filled[0][0].describe(), "returned": _show(filled[0][2])})
     # ... and only an empty request gives no rows: the regime that returns an array without rows is entered on a test that admits only size 0
-    is_req = lambda x: sym_of(strip(x)) == dofp
+    is_req = lambda x: sym_of(_all_items(x)) == dofp
     bad, odd = None, None
     for p, k, v in kinds:
         if k != "empty":
@@ -1909,7 +1930,7 @@ def r4_expanddof(ctx):
     bad, odd = None, None
     for p, k, v in ids:
         X, _ = _cross_rows(v)
-        if sym_of(strip(X)) != dofp:
+        if sym_of(_all_items(X)) != dofp:
             continue
         tests, unread = [], None
         for c, d, node in p.atoms():
@@ -2052,10 +2073,11 @@ def r5_index2slice(ctx):
     if bad is None and odd is not None:
         ctx.error("index2slice: a test on the number of entries is not recognised (rule knows size / len / shape[0] compared with a constant)", odd.ret_node,
                   odd.describe())
-    elif empties:
+    else:
         ctx.check(bad is None, "index2slice: the slice that selects nothing (slice(0)) is returned only when the tests taken establish that pv has no entry",
                   (bad[0].ret_node if bad else None) or fn,
-                  None if bad is None else {"regime": bad[0].describe(), "number of entries on this path": bad[1], "returned": _show(bad[0].ret)})
+                  None if bad is None else {"regime": bad[0].describe(), "number of entries on this path": bad[1], "returned": _show(bad[0].ret)},
+                  nontrivial=bool(empties))
 
 
 RULES = [
@@ -2063,8 +2085,8 @@ RULES = [
     ("C18-R1b", r1b_producer, 5),
     ("C18-R2", r2_mksetpv, 6),
     ("C18-R3", r3_checked_lookup, 23),
-    ("C18-R4", r4_expanddof, 5),
-    ("C18-R5", r5_index2slice, 3),
+    ("C18-R4", r4_expanddof, 9),
+    ("C18-R5", r5_index2slice, 4),
 ]
 LEVEL = "other"
 EXPLANATION = ("Static: the USET bit-mask table is the value mkusetmask returns, constant-folded from the source however it is built (dict literal, "
@@ -2077,7 +2099,10 @@ EXPLANATION = ("Static: the USET bit-mask table is the value mkusetmask returns,
                "returned / the regimes that raise: the producer clears the ambiguous S bit in place; mksetpv returns pvminor[pvmajor] and refuses in "
                "every regime with a minor DOF outside major; in mkdofpv and mat_intersect the value of np.searchsorted is followed through the clamp, "
                "the sorter indirection and the exact re-check to the returned positions (strict raises, non-strict filters positions and DOF with one "
-               "mask, outputs in (D1, D2) order, keys compared in np.result_type of both inputs); expanddof's guards; index2slice's stop/None boundary.")
+               "mask, outputs in (D1, D2) order, keys compared in np.result_type of both inputs); expanddof's guards, the order of its digit / id "
+               "expansion, and - decided over a finite world of (ndim, columns) / sizes from the tests each regime took - that only an empty request "
+               "gives no rows and only a request without a component column is expanded as ids; index2slice's stop/None boundary and its empty slice. "
+               "Tests on the two masks of mksetpv are decided over a finite world of bit patterns that includes the bits of every constant they mention.")
 MANIFEST = {
     "text": "Partial claim decided statically: the mask table is a consistent encoding of the documented set lattice for every possible USET word "
             "(248 pair obligations), agrees with the NDDL bit table, op2 clears exactly the S bit on s-set DOF, no other module defines a mask; "
@@ -2085,8 +2110,9 @@ MANIFEST = {
             "locate.mat_intersect search with the argsort of the searched keys, clamp and re-check searchsorted results and filter consistently "
             "(mkdofpv: strict raises, non-strict filters positions and DOF list by the same exact-match mask, table restricted to the requested set, "
             "keys id*10+component on both sides; mat_intersect: outputs in (D1, D2) order, keys viewed in np.result_type of both inputs, empty result "
-            "without a search only for different column counts); expanddof guards components > 6 and expands ids to 1..6 / 0..6; index2slice turns "
-            "the exclusive stop into None exactly when it is negative. "
+            "without a search only for different column counts); expanddof guards components > 6, walks request rows and digits in the order given, expands ids to 1..6 / 0..6 in request order only for "
+            "requests without a component column and returns no rows only for an empty request; index2slice turns "
+            "the exclusive stop into None exactly when it is negative and returns the empty slice only for an empty vector. "
             "Not decided: the value-level defining equations of the other locate helpers (find_duplicates, merge_lists, find_subseq, flippv) and of "
             "index2slice beyond its stop boundary and even-spacing test.",
     "note": "Trusted: CPython ast; the documented Nastran set hierarchy (Quick Reference Guide) embedded in the checker. Numpy semantics of &, !=, boolean "
